@@ -59,6 +59,7 @@ def apply_post(x, rules, fill_seed):
                     different sectors -> exactly degenerate spectra)
     ["shift", c]    square blocks: block += c * identity         (makes them invertible)
     ["zero", k]     the k-th stored block := 0
+    ["pow2", e]     block := block * 2**(+e) for even-numbered stored blocks, 2**(-e) for odd ones (exact)
     ["diag", step]  block := rectangular diagonal with the integers 1 + i + step * n on it (n the
                     position of the block): exactly representable, distinct singular values
                     (step 0: the same spectrum in every sector -> ties across sectors)
@@ -80,6 +81,9 @@ def apply_post(x, rules, fill_seed):
                 nb = b + args[0] * np.eye(*b.shape) if b.shape[0] == b.shape[1] else b
             elif name == "zero":
                 nb = np.zeros_like(b) if n == args[0] % len(keys) else b
+            elif name == "pow2":
+                # exact rescaling of alternate sectors by 2**(+-e): a wide dynamic range ACROSS sectors
+                nb = b * (2.0 ** (int(args[0]) if n % 2 == 0 else -int(args[0])))
             elif name == "diag":
                 nb = np.zeros(b.shape)
                 k = min(b.shape)
@@ -336,6 +340,22 @@ def degenerate_matrices():
                                 spec["pre_ops"] = _PENDING[int(rng.integers(1, len(_PENDING)))]
                             r = int(rng.integers(0, 6))
                             yield {"spec": spec, "post": [[["same"]], [["same"]], [["identity"]], [["diag", 0]], [["diag", 1]], [["diag", 3]]][r]}
+
+
+def wide_and_uneven_matrices():
+    """(a) sectors living on very different scales (ratios far beyond machine epsilon, exactly
+    representable); (b) three or more bond sectors of uneven sizes incl. size one (proportional split)."""
+    for sym, pool in (("U1", [-1, 0, 2]), ("Z2", [0, 1]), ("U1", [-1, 0, 1, 2]), ("Z2Z2", [(0, 0), (0, 1), (1, 1)])):
+        for sizes in ((2, 2, 2, 2), (1, 3, 3, 1), (1, 3, 3, 3), (1, 4, 4, 2), (1, 2, 2, 1), (3, 3, 1, 2)):
+            for d0 in (False, True):
+                for fermionic in (False, True):
+                    cm = [[jcharge(c), sz] for c, sz in zip(pool, sizes)]
+                    indices = [{"cm": cm, "dual": d0}, {"cm": cm, "dual": not d0}]
+                    for dtype, e in (("float64", 30), ("float32", 13), ("complex128", 29)):
+                        spec = {"sym": sym, "fermionic": fermionic, "static": True, "indices": indices, "charge": jcharge(G.zero(sym)), "fill_seed": 5, "dtype": dtype, "sectors": "all"}
+                        yield {"spec": spec, "post": [["diag", 1], ["pow2", e]]}
+                    spec = {"sym": sym, "fermionic": fermionic, "static": True, "indices": indices, "charge": jcharge(G.zero(sym)), "fill_seed": 6, "dtype": "float64", "sectors": "all"}
+                    yield {"spec": spec, "post": [["diag", 2]]}
 
 
 def herm_matrix(rng, sym, fermionic, dtype, fused=False):
